@@ -54,13 +54,13 @@ CALLER_ENV = [None]
 
 def caller_environment():
     """Interpreter-wide settings that belong to the CALLER of the library, changed the way an application
-    legitimately changes them for its own work before it uses the library: the decimal context (6 significant
-    digits, rounding down -- the value the decimal documentation itself uses in its examples) and numpy's print
+    legitimately changes them for its own work before it uses the library: the decimal context (4 significant
+    digits, rounding down: results shown to four figures) and numpy's print
     options.  The library's behaviour must not depend on them.  One shard of every check runs like this."""
     import decimal
 
     ctx = decimal.getcontext()
-    ctx.prec = 6
+    ctx.prec = 4
     ctx.rounding = decimal.ROUND_DOWN
     try:
         import numpy as np
@@ -68,7 +68,7 @@ def caller_environment():
         np.set_printoptions(precision=3, suppress=True, floatmode="fixed")
     except Exception:
         pass
-    CALLER_ENV[0] = "decimal context prec=6 ROUND_DOWN; numpy printoptions precision=3"
+    CALLER_ENV[0] = "decimal context prec=4 ROUND_DOWN; numpy printoptions precision=3"
 
 
 class Recorder:
